@@ -24,6 +24,9 @@ warnings.filterwarnings("ignore")
 MODULES = {
     "C01": ("mcx.checks.c01", {"pid": "C01"}),
     "C05": ("mcx.checks.c01", {"pid": "C05"}),
+    "C04": ("mcx.checks.c04", {}),
+    "C12": ("mcx.checks.c12", {}),
+    "C19": ("mcx.checks.c19", {}),
 }
 
 
